@@ -471,6 +471,19 @@ pub fn run(ctx: &Ctx) -> Report {
         judge_prog(&f2_prog(&seq, &litems, false), "F2-layout", &opts, l);
     }));
     levels.push(json!({"family": format!("F2-layout sequences of length <= {} over {} layout items", maxlen_l, kl), "cases": n2l}));
+    // bank configurations (the grid of the C06 check: shapes, window relations, definition orders) with at most one
+    // item: a layout the rules allow is assembled, whichever way round the banks are declared
+    {
+        let cfgs = super::c06::make_configs(false);
+        let k = super::c06::NSYMS as u64;
+        let per = seq_count(k, 1);
+        rep.absorb(par_run(cfgs.len() as u64 * per, |i, l| {
+            let d = decode(i, &[per, cfgs.len() as u64]);
+            let seq = seq_decode(d[0], k, 1);
+            judge_prog(&super::c06::build_prog(&cfgs[d[1] as usize], &seq), "bank-configurations", &opts, l);
+        }));
+        levels.push(json!({"family": "bank configurations of the C06 grid x sequences of length <= 1", "cases": cfgs.len() as u64 * per}));
+    }
     // F2-layout in a bank that starts at a negative address: positions are counted from the bank's start whatever its
     // sign, alignment is to multiples of the unit count from address 0 (so the padding depends on the sign-correct
     // remainder)
